@@ -1,11 +1,15 @@
 package s0320
 
+type G2 struct {
+	F2x0x0 uint32
+}
+
 type G1 struct {
-	F2x0 []uint32
+	F2x0 []G2
 }
 
 type T struct {
-	F0 *int32
-	F1 *int64
-	F2 G1
+	F0 []int32
+	F1 int64
+	F2 []G1
 }
